@@ -5,11 +5,18 @@ parse -> from_node -> canonical value equal?; re-serialise -> identical bytes?; 
 (resolved through sdc11073.schema_resolver.SchemaResolver)?; absent members read back as implied/default values that
 are not the class-level default object?
 
-stream `props`: single property descriptors driven directly (update_xml_value / get_py_value_from_node) on small
-element trees; the trees and values are returned in the vocabulary of coq/XmlStruct/Model.v.
+Every value is written twice (both outputs, the first tree, the value and the source document are compared), every
+document is read with optional parts removed and into populated instances (update_from_node; from_node variants with
+a pre-set object) and compared with the read into a fresh instance and with the implied / default values.
 
-stdin : {"stream": "classes", "seed": n, "per_class": k, "only": [keys]?} | {"stream": "props", "seed": n, "count": k}
-stdout: {"results": ...}"""
+stream `props`: single property descriptors driven directly (update_xml_value / get_py_value_from_node, and
+update_from_node on an instance whose member is pre-set) on small element trees; the trees and values are returned
+in the vocabulary of coq/XmlStruct/Model.v / Instance.v.
+
+stream `own`: the opaque members under random assign / parse / read / write sequences (coq/XmlStruct/Instance.v).
+
+stdin : {"stream": "classes", "seed": n, "per_class": k, "only": [keys]?} | {"stream": "props" | "own", "seed": n, "count": k}
+stdout: {"results": ...} | {"cases": ...}"""
 import json
 import random
 import sys
@@ -181,7 +188,8 @@ def absent_members(node, obj, out, path='', depth=0):
         want = absent_expect(p)
         if seen not in want:
             out.append(('member absent in the XML is not the implied/default value', f'{path}.{name}',
-                        {'seen': short(str(seen), 200), 'expected': short(str(want[-1]), 200)}))
+                        {'seen': short(str(seen), 200), 'expected': short(str(want[-1]), 200),
+                         'descriptor': type(p).__name__}))
         raw = obj.__dict__.get(p._local_var_name)  # noqa: SLF001
         d = p._default_py_value  # noqa: SLF001
         if raw is not None and raw is d and X.is_mutable(d):
@@ -220,7 +228,10 @@ def thin(node, obj, gen, rng, p_del, depth=0):
     return removed
 
 
-def diff_member(b1, b2):
+OPAQUE_PROPS = (xs.ExtensionNodeProperty, xs.AnyEtreeNodeListProperty, xs.AnyEtreeNodeProperty)
+
+
+def diff_tag(b1, b2):
     import re
     m = re.match(r'</?([\w:.\-]+)', first_diff_tag(b1, b2))
     return m.group(1) if m else first_diff_tag(b1, b2)
@@ -244,6 +255,10 @@ def write_purity(obj, tag, what, fails, reparse_cls=None, source=None):
     unchanged by the (second) write.  Returns the bytes of the first write."""
     c0 = X.canon(obj)
     src0 = None if source is None else tob(source)
+    opaque = '+'.join(sorted({type(p).__name__ for (_, p), raw in walk_fields(obj) if isinstance(p, OPAQUE_PROPS) and raw}))
+
+    def diff_member(a, b):        # signature: the opaque descriptor classes in play (else the first differing tag)
+        return opaque or diff_tag(a, b)
     n1 = X.serialise(obj, tag)
     s1 = tob(n1)
     if source is not None and tob(source) != src0:
@@ -257,9 +272,9 @@ def write_purity(obj, tag, what, fails, reparse_cls=None, source=None):
     if tob(n1) != s1:
         fails.append(('an earlier written document changed when the value was written again', diff_member(s1, tob(n1)),
                       {'value': what, 'first_write': short(s1), 'same_tree_after_second_write': short(tob(n1))}))
-    elif source is not None and tob(source) != src0 and not fails:
+    if source is not None and tob(source) != src0 and not any(f[0].startswith('writing a value changed') for f in fails):
         fails.append(('writing a value changed the document it was read from', diff_member(src0, tob(source)),
-                      {'value': what, 'document_before': short(src0), 'document_after': short(tob(source))}))
+                      {'value': what, 'document_before': short(src0), 'document_after_second_write': short(tob(source))}))
     c1 = X.canon(obj)
     if c1 != c0:
         path, a, b = X.canon_diff(c0, c1)
@@ -273,6 +288,26 @@ def write_purity(obj, tag, what, fails, reparse_cls=None, source=None):
                           {'value': what, 'written': short(str(a), 200), 'read': short(str(b), 200),
                            'tree_now': short(tob(n1))}))
     return s1
+
+
+def descriptor_at(obj, path):
+    """class name of the property descriptor that declares the member at `path` (as printed by canon_diff) below obj"""
+    import re
+    name = None
+    try:
+        for name, idx in re.findall(r'\.(\w+)(?:\[(\d+)\])?', path):
+            p = dict(X.class_props(type(obj))).get(name)
+            if p is None:
+                return None
+            desc = type(p).__name__
+            obj = obj.__dict__.get(p._local_var_name)  # noqa: SLF001
+            if idx and isinstance(obj, list) and int(idx) < len(obj):
+                obj = obj[int(idx)]
+            if not X.is_struct(obj):
+                return desc
+        return desc if name else None
+    except Exception:  # noqa: BLE001
+        return None
 
 
 def populated_reads(cls, doc, fresh_canon, targets, fails):
@@ -291,7 +326,7 @@ def populated_reads(cls, doc, fresh_canon, targets, fails):
             path, a, b = X.canon_diff(fresh_canon, ct)
             fails.append(('reading into a populated instance differs from reading into a fresh instance', path,
                           {'populated': how, 'document': short(doc), 'fresh instance': short(str(a), 200),
-                           'populated instance': short(str(b), 200)}))
+                           'populated instance': short(str(b), 200), 'descriptor': descriptor_at(target, path)}))
         out = []
         absent_members(node, target, out)
         for clause, path, det in out:
@@ -347,7 +382,7 @@ def run_classes():
                 src0 = tob(src)
                 obj2 = X.parse(type(obj), src)
                 if tob(src) != src0:
-                    fails.append(('reading changed the document', diff_member(src0, tob(src)),
+                    fails.append(('reading changed the document', diff_tag(src0, tob(src)),
                                   {'before': short(src0), 'after': short(tob(src))}))
             except Exception as ex:  # noqa: BLE001
                 res['fail'].append({'clause': f'{stage} raises {type(ex).__name__}', 'member': last_member(ex),
@@ -426,7 +461,7 @@ def run_classes():
                             path, a, b = X.canon_diff(fc, ci)
                             fails.append((f'{how.split("(")[0]} with a pre-set object differs from from_node(node)', path,
                                           {'variant': how, 'document': short(doc), 'from_node(node)': short(str(a), 200),
-                                           'variant gives': short(str(b), 200)}))
+                                           'variant gives': short(str(b), 200), 'descriptor': descriptor_at(inst, path)}))
                         out = []
                         absent_members(etree.fromstring(doc), inst, out)
                         for clause, path, det in out:
@@ -447,7 +482,8 @@ def run_classes():
                                     'detail': short(traceback.format_exc()[-900:], 900)})
                 bad = True
             for clause, member, det in fails:
-                res['fail'].append({'clause': clause, 'member': member, 'detail': det})
+                res['fail'].append({'clause': clause, 'member': member, 'detail': det,
+                                    'descriptor': det.get('descriptor') if isinstance(det, dict) else None})
                 bad = True
             prev_doc, prev_obj = b1, obj
             res['ok'] += not bad
